@@ -101,7 +101,10 @@ def build(shape: str, depth: str) -> bytes:
 
 
 def load(doc: str):
-    """"deep:<shape>:<depth>" -> (bytes, path argument)"""
+    """"deep:<shape>:<depth>" | "midfail:<kind>" -> (bytes, path argument)"""
+    if doc.startswith("midfail:"):
+        kind = doc.split(":")[1]
+        return build_midfail(kind), MIDFAIL_NAMES[kind]
     _, shape, depth = doc.split(":")
     return build(shape, depth), NAMES[shape]
 
@@ -111,3 +114,92 @@ def family(tier: str) -> list:
         return ["deep:html-div:2", "deep:html-div:16", "deep:odt-span:16", "deep:docx-sdt:2"]
     out = [f"deep:{s}:{m}" for s in SHAPES for m in ("q", "2", "16") if not (s == "html-table" and m == "16")]
     return out + ["deep:html-div:128", "deep:odt-span:128", "deep:docx-sdt:128"]
+
+
+# ----------------------------------------------------------------------------------------------------------------------
+# archives that fail AFTER the container has been opened and listed ("midfail:<kind>")
+#
+# The header / central directory / first tar member are intact, so the extractor opens the archive, lists it, selects the
+# members and sets up whatever it needs to unpack them (scratch directory, decompressor, member files already written) -
+# and only then meets packed data that cannot be decoded. kinds = container x coder x folder layout x damage:
+#   7z-<coder>-<layout>      coder lzma | lzma2 | copy, layout solid | perfile | two (verif.gen.sevenz); the bytes of the
+#                            (last) pack stream are XOR-ed with 0xA5 from 1/3 to 2/3 of its length - signature header, end
+#                            header and their CRCs stay valid ("copy": only the member CRC can notice)
+#   7z-<coder>-solid-size    intact pack stream, forged folder unpack size (one byte more than there is)
+#   zip-deflate / zip-stored one member's packed bytes damaged in the same way, central directory intact
+#   tgz / txz / tbz2         the compressed tar stream damaged behind its first quarter (the container is recognised by its magic)
+# ----------------------------------------------------------------------------------------------------------------------
+_MF_MEMBERS = [("a.txt", "Bbcdfg " + " ".join(f"w{i * 7919 % 1000}" for i in range(60))),
+               ("b.html", "<html><body><p>Cdfghj " + " ".join(f"v{i * 104729 % 1000}" for i in range(60)) + "</p></body></html>"),
+               ("c.txt", "Dfghjk " + " ".join(f"u{i * 1299709 % 1000}" for i in range(60)))]
+MIDFAIL = ("7z-lzma-solid", "7z-lzma2-solid", "7z-copy-solid", "7z-lzma-perfile", "7z-lzma2-two", "7z-lzma-solid-size", "7z-lzma2-solid-size",
+           "zip-deflate", "zip-stored", "tgz", "txz", "tbz2")
+MIDFAIL_NAMES = {k: "midfail/" + k + (".7z" if k.startswith("7z") else ".zip" if k.startswith("zip") else ".tar." + {"tgz": "gz", "txz": "xz", "tbz2": "bz2"}[k])
+                 for k in MIDFAIL}
+
+
+def _damage(b: bytes, start: int, end: int) -> bytes:
+    """XOR 0xA5 over the middle third of b[start:end]"""
+    n = end - start
+    a, z = start + n // 3, start + (2 * n) // 3
+    if z - a < 8:
+        raise ValueError("nothing to damage")
+    return b[:a] + bytes(x ^ 0xA5 for x in b[a:z]) + b[z:]
+
+
+def build_midfail(kind: str) -> bytes:
+    import struct
+    import tarfile
+    if kind.startswith("7z-"):
+        from verif.gen import sevenz
+        parts = kind.split("-")
+        coder, layout = parts[1], {"solid": "solid", "perfile": "per_file", "two": "two_folders"}[parts[2]]
+        members = [{"name": n, "data": d.encode(), "mtime": 1577836800} for n, d in _MF_MEMBERS]
+        opts = {"coder": coder, "layout": layout}
+        if parts[-1] == "size":
+            blob = sum(len(m["data"]) for m in members)
+            return sevenz.sevenz(members, dict(opts, unpack_size_override=blob + 1))
+        good = sevenz.sevenz(members, opts)
+        (next_header_offset,) = struct.unpack("<Q", good[12:20])
+        end = 32 + next_header_offset                 # the pack streams lie between the signature header and the end header
+        if layout == "solid":
+            return _damage(good, 32, end)
+        # several folders: damage the LAST pack stream only (its length = packed size of the last folder)
+        last = len(sevenz.encode(members[-1]["data"] if layout == "per_file" else b"".join(m["data"] for m in members[2:]), coder)[0])
+        return _damage(good, end - last, end)
+    if kind.startswith("zip-"):
+        out = io.BytesIO()
+        with zipfile.ZipFile(out, "w", zipfile.ZIP_DEFLATED if kind == "zip-deflate" else zipfile.ZIP_STORED) as z:
+            for n, d in _MF_MEMBERS:
+                z.writestr(zipfile.ZipInfo(n, (2020, 1, 1, 0, 0, 0)), d, compress_type=z.compression)
+        good = out.getvalue()
+        zi = zipfile.ZipFile(io.BytesIO(good)).infolist()[1]
+        start = zi.header_offset + 30 + len(zi.filename.encode())
+        return _damage(good, start, start + zi.compress_size)
+    mode = {"tgz": "gz", "txz": "xz", "tbz2": "bz2"}[kind]
+    raw = io.BytesIO()
+    with tarfile.open(fileobj=raw, mode="w", format=tarfile.USTAR_FORMAT) as t:
+        for n, d in _MF_MEMBERS:
+            ti = tarfile.TarInfo(n)
+            ti.size = len(d.encode())
+            ti.mtime = 1577836800
+            t.addfile(ti, io.BytesIO(d.encode()))
+    raw = raw.getvalue()
+    if mode == "gz":
+        import zlib
+        co = zlib.compressobj(6, zlib.DEFLATED, 31)
+        good = co.compress(raw) + co.flush()
+        good = good[:4] + bytes(4) + good[8:]        # gzip MTIME = 0: the bytes do not depend on the clock
+    elif mode == "xz":
+        import lzma
+        good = lzma.compress(raw, preset=6)
+    else:
+        import bz2
+        good = bz2.compress(raw, 9)
+    return _damage(good, len(good) // 4, len(good))
+
+
+def midfail_family(tier: str) -> list:
+    if tier == "quick":
+        return ["midfail:7z-lzma-solid", "midfail:7z-lzma2-solid", "midfail:7z-lzma2-two", "midfail:zip-deflate"]
+    return ["midfail:" + k for k in MIDFAIL]
